@@ -245,3 +245,8 @@ def run(chk):
     _enqueue_rule(chk, prog)
     _detach_rule(chk, prog)
     _timeout_rule(chk, prog)
+    from rules.c14 import _castrange_rule
+    _castrange_rule(chk, prog.tus["ev.c"], rule="C07-TIMECAST",
+                    desc="a duration is converted to the timer queue's integer timestamp only after NaN and out-of-range values were excluded "
+                         "(otherwise the deadline lands in the past)",
+                    floor=1, only=("ts_delta",), need_nan=True)
